@@ -60,6 +60,13 @@ ALNS = {
 # the three sequences differ by transitions only: kappa-like parameters want to be as large as their bound allows
 TS_ONLY = {"a": "ACGTACGTACGTACGTACGTACGTACGTACGTACGTACGT", "b": "GCGTACATACGCACGTGCGTACGTATGTACGTACGTACGC",
            "c": "ACATACGTACGTATGTACGTGCGTACGTACGCACGTACGT"}
+# 300 columns on 4 taxa (GC rich, many substitutions): long enough for GeneralStationary fits to run into refused points
+GS_ALN = {
+    "a": "TATGGTTACTTCGCGCGGGTGTGACGACGGGGCGCGGTTCACGCATCAAGGGGGACGGGAGCGACTGGTGCCCGGTGTGCGGAGCTACCCGCCGCGGCCAGGGGGATGCCGGATCCTGGTGCTCGGTTGGCTACTCCCCCGCAGCCGCGCGTCCGCGTCGGCCTGTGGTCGGGTTCGCCCCCGTTGGGCGGCGGAATTCCACGCGGGGGATGTCGTCGGCCGCGCTGGTGTGGTGGTCTACCGGCTCCCGTCCCCGATCCGAGCCGCGGCACTCTGCGCCAGCCTGGCGGCCTGGGGGGA",
+    "b": "CATGGTTTCCGTGCTGGGAGGTGCCTGCGGGGCGCGGGTTCTGTCCCAGGGGGCGTGGGGGCGACTGGCGCTCGGTGTGCGGAGCTACTTGCTGCGGCCAAAGGGATGCTGAATCGTGGCGCGCGACTTGCCACCCCACCGTAGCCGCTCGTCCACGTCGGCGTATGGACGGGCTCGCCCCCGCTGGGCGGCAGGACCCTACGTGGGGGGTGTCGACGGCCGCGCTAGTGAGGTGGGTCTCCATTTTCGGTACCCGATCCTAGCTTCGGCGGCCCGCGCGAGTCCGGCGGCCCGGCGGGA",
+    "c": "CACGGTCGCGGCGCGTGGGGGCGGTCGTGGGGCTGGGTTCGTGCACCGAGGGGGGTGGAAGCGGCAGGTATTCGGTGCGCGAAGGCACTCGTTGCGGCCAGGGGGACGCAGTATCATGGCGTGCGGTGGGCTACCTTGCTTTGGCGGCCTGCCTGCGTCGGCCTATGGTCAGGCTCTTCCCCGCCGGGCAGCGGGACTGTAGGTGGGGTATGCCCGTTGCTGTGTAAACGAGGTGGGTTACCGTTCTTGGTACCCGGCTCTAGCCTTGACGGCTTGCGCCAGTCCGGCGGCCTGGGGGGA",
+    "d": "CGCGGTCGCCGCGCGTGGGGTAGGGTGCGGGGCTCGGTTCGCGCATCGAGGGGGGTGGGGGCGGTCGGTGTTCCGTGCGCGAAGCCATTCGCTGCGGCCTGAGGGATGCAGAATCACGGTGTGCGGGTGGTCATCCCCCCACGGCCGCCTGCCCGCGCCGGCCCATGGTCGGGCTCGTCCCCGCCGGGCGGCGGGACTCTACGTGGGGGAGGTCGGTTGCCGTGCTAGTGAGGTGGTCCATTGTCCTTGGTAGCCGACTCTAACCCCGGCGGCCTGCGCCAATCCGGCGGCCTGGGGGGT",
+}
 CODON_ALN = {"a": "ATGCGTATTACGAACGTTGCAACG", "b": "ATGCGAATCACGTACGATGCAATG", "c": "ATGTCACCTCGAACGTTGAAACGA"}
 
 # published nesting of the nucleotide families (transitively closed below).  JC69/K80 have equal frequencies.
@@ -143,9 +150,16 @@ def random_alignment(rnd, tips, length):
 # ------------------------------------------------------------------------------------------------ real objects
 def build_lf(spec, newick, seqs):
     from cogent3 import get_model, make_aligned_seqs, make_tree
-    sm = get_model(spec["sm"], optimise_motif_probs=bool(spec.get("omp", False)))
+    if spec["sm"] == "GS":       # the one supplied model whose calculation can refuse a point inside the declared bounds
+        from cogent3.core.moltype import DNA
+        from cogent3.evolve.ns_substitution_model import GeneralStationary
+        sm = GeneralStationary(DNA.alphabet, optimise_motif_probs=bool(spec.get("omp", False)))
+    else:
+        sm = get_model(spec["sm"], optimise_motif_probs=bool(spec.get("omp", False)))
     lf = sm.make_likelihood_function(make_tree(newick))
-    lf.set_alignment(make_aligned_seqs(dict(seqs), moltype="dna"))
+    aln = make_aligned_seqs(dict(seqs), moltype="dna")
+    lf.set_alignment(aln)
+    lf._aln_for_c16 = aln            # (kept for starts that fit another model to the same data first)
     for r in spec.get("rules", []):
         lf.set_param_rule(**r)
     return lf
@@ -186,6 +200,12 @@ def apply_state(lf, state, omp_free):
     elif kind == "rules":
         for r in state["rules"]:
             lf.set_param_rule(**r)
+    elif kind == "gs_from_hky":
+        from cogent3 import get_model
+        null = get_model("HKY85").make_likelihood_function(lf.tree)
+        null.set_alignment(lf._aln_for_c16)
+        null.optimise(local=True, max_restarts=2, show_progress=False, max_evaluations=300, limit_action="ignore")
+        lf.initialise_from_nested(null)
     elif kind == "on_bound":
         if state.get("prefit"):        # sensible branch lengths first, the rate parameters held at the bound
             for r in state["rules"]:
@@ -552,6 +572,17 @@ def gen_optimise(tier, seed):
                 yield {"model": {"sm": sm, "omp": False, "rules": []}, "tree": TREES["t3"], "seqs": TS_ONLY,
                        "start": {"kind": "on_bound", "rules": rules, "prefit": prefit, "name": f"on_upper_{u:g}" + ("_prefit" if prefit else "")},
                        "opt": opt}
+    # GeneralStationary: evaluations can be refused (ParameterOutOfBoundsError inside the calculation) and are retried by
+    # the local optimiser; started from the default point and from the point of a fitted HKY85 (kappa on the transitions)
+    for tree, aln in (("t4r", "clean"), ("t3", "amb"), ("t4u", "gs")):
+        for start in ({"kind": "rules", "rules": [], "name": "default"}, {"kind": "gs_from_hky", "name": "from-fitted-HKY85"}):
+            for opt in ({"local": True, "max_evaluations": 200}, {"local": True, "max_evaluations": 400},
+                        {"local": True, "max_evaluations": 700}, {"local": True, "max_evaluations": None, "tolerance": 1e-6},
+                        {"local": None, "max_evaluations": 300, "seed": 3}):
+                if not thorough and aln != "gs" and opt.get("max_evaluations") in (200, 700):
+                    continue
+                yield {"model": {"sm": "GS", "omp": False, "rules": []}, "tree": TREES[tree],
+                       "seqs": GS_ALN if aln == "gs" else seqs_for(aln, tree), "start": start, "opt": opt}
     # codon family (few)
     for k, opt in enumerate([{"local": True, "max_evaluations": 1}, {"local": True, "max_evaluations": 12},
                              {"local": None, "max_evaluations": 12, "seed": 1}, {"local": False, "max_evaluations": 8, "seed": 2}]):
